@@ -1,6 +1,7 @@
 package connect
 
 import (
+	"bytes"
 	"context"
 	"errors"
 	"io"
@@ -223,4 +224,53 @@ func HarnessC13DuplexStream() {
 	check(sendErr == nil && recvErr == nil, "sending and receiving concurrently on one stream both succeed")
 	check(len(got) == 1 && got[0] == x+y, "the concurrently received response is the handler's answer to what was sent")
 	_ = stream.CloseResponse()
+}
+
+// idTransport answers every request with 200, no grpc-status anywhere, and a
+// header that identifies the call.
+type idTransport struct{}
+
+func (idTransport) Do(req *http.Request) (*http.Response, error) {
+	_, _ = io.Copy(io.Discard, req.Body)
+	_ = req.Body.Close()
+	h := http.Header{"Content-Type": {req.Header.Get("Content-Type")}, "X-Call": {req.Header.Get("X-Call")}}
+	return &http.Response{StatusCode: 200, Status: "200 OK", ProtoMajor: 2, Header: h, Trailer: http.Header{}, Body: io.NopCloser(bytes.NewReader(nil)), Request: req}, nil
+}
+
+// HarnessC13ErrorIsolation: errors handed to user code stay the caller's own:
+// two failing calls (a response without any status) must return distinct
+// error values, and the first one's metadata must be unchanged after the second.
+//
+//verif:harness property=C13 stubs=json,wire
+func HarnessC13ErrorIsolation() {
+	proto := 1 + nondetChoice("proto", 2) // gRPC, gRPC-Web (an empty 200 response is a valid Connect unary response)
+	client := NewClient[[]byte, []byte](idTransport{}, stackURL, stackClientOptions(proto)...)
+	call := func(id string) error {
+		in := []byte{1}
+		req := NewRequest(&in)
+		req.Header().Set("X-Call", id)
+		_, err := client.CallUnary(context.Background(), req)
+		return err
+	}
+	ida := c13Tag(c13Payload("a", 1))
+	idb := c13Tag(c13Payload("b", 1))
+	errA := call(ida)
+	check(errA != nil, "a response without a status is an error")
+	if errA == nil {
+		return
+	}
+	ceA, okA := asError(errA)
+	check(okA, "the error is a *connect.Error")
+	if !okA {
+		return
+	}
+	before := ceA.Meta().Get("X-Call")
+	errB := call(idb)
+	ceB, okB := asError(errB)
+	if okB {
+		check(ceA != ceB, "two calls never hand out the same error value")
+		check(ceB.Meta().Get("X-Call") == idb || ceB.Meta().Get("X-Call") == "", "the second error carries its own call's headers")
+	}
+	check(ceA.Meta().Get("X-Call") == before, "an error's metadata is intact after another call ran")
+	check(before == ida || before == "", "the first error carries its own call's headers")
 }
